@@ -4,13 +4,16 @@ EXTENDS Integers, Sequences, FiniteSets, TLC
 
 Places == {"root", "sub", "sub/deep", "hidden", "pycache", "hidden/sub", "sub/pycache"}
 Kinds == {"py", "txt"}
-Contents == {"v1import", "plain"}
+\* v1import_utf8: a v1 import next to non-ASCII text (UTF-8); v1import_latin1: the same saved in
+\* Latin-1 with a coding cookie -- valid Python that process_file cannot read as UTF-8: it reports
+\* the file and leaves it alone
+Contents == {"v1import", "plain", "v1import_utf8", "v1import_latin1"}
 
 File(p, k, c, n) == [place |-> p, kind |-> k, content |-> c, n |-> n]
 AllFiles == {File(p, k, c, 1) : p \in Places, k \in Kinds, c \in Contents}
 
 Visited(place) == place \in {"root", "sub", "sub/deep"}
-MustRewrite(f) == Visited(f.place) /\ f.kind = "py" /\ f.content = "v1import"
+MustRewrite(f) == Visited(f.place) /\ f.kind = "py" /\ f.content \in {"v1import", "v1import_utf8"}
 
 
 =============================================================================
